@@ -56,7 +56,7 @@ pub enum Term {
     Str(String),
     Var(VarId),
     Nil,
-    Cons(Box<Term>, Box<Term>),
+    Cons(std::sync::Arc<Term>, std::sync::Arc<Term>),
     Cmp(Kind, Vec<Term>),
 }
 
@@ -79,7 +79,7 @@ impl Term {
     }
 
     pub fn cons(h: Term, t: Term) -> Term {
-        Term::Cons(Box::new(h), Box::new(t))
+        Term::Cons(std::sync::Arc::new(h), std::sync::Arc::new(t))
     }
     pub fn list(items: Vec<Term>) -> Term {
         Term::improper(items, Term::Nil)
@@ -280,6 +280,14 @@ pub enum Rel {
     Downfrom,
     /// diverge(): a closure calling itself, never producing an answer (infinite, silent)
     Diverge,
+    /// memberrev(x, l): member with the RECURSIVE clause first (answers in reverse list order
+    /// under depth-first search; a deep spine of pending alternatives)
+    MemberRev,
+    /// zeros(l): every element of the proper list l is 0 — the recursive call is NOT the last
+    /// goal of its clause (`l == [h | t], zeros(t), h == 0`), so n nested binds are alive
+    Zeros,
+    /// nrev(l, r): naive reverse (recursion, then append)
+    Nrev,
 }
 
 impl Rel {
@@ -299,13 +307,16 @@ impl Rel {
             Rel::LenLe => "lenle",
             Rel::Downfrom => "downfrom",
             Rel::Diverge => "diverge",
+            Rel::MemberRev => "memberrev",
+            Rel::Zeros => "zeros",
+            Rel::Nrev => "nrev",
         }
     }
     pub fn arity(self) -> usize {
         match self {
-            Rel::Member | Rel::Member1 | Rel::Permute | Rel::First | Rel::Rest | Rel::LenLe | Rel::Downfrom => 2,
+            Rel::Member | Rel::Member1 | Rel::Permute | Rel::First | Rel::Rest | Rel::LenLe | Rel::Downfrom | Rel::MemberRev | Rel::Nrev => 2,
             Rel::Append | Rel::Rember | Rel::Cons => 3,
-            Rel::Distinct | Rel::Empty | Rel::Nat => 1,
+            Rel::Distinct | Rel::Empty | Rel::Nat | Rel::Zeros => 1,
             Rel::Diverge => 0,
         }
     }
